@@ -25,6 +25,8 @@ type Case struct {
 	PingMS        int      `json:"ping_ms,omitempty"`    // blackout: duration of a health probe
 	Stale         bool     `json:"stale,omitempty"`      // blackout: a slow probe reports the health it saw when it started
 	Recoverer     int      `json:"recoverer,omitempty"`  // blackout: which target comes back (index in going-down order)
+	CloseDelayMS  int      `json:"close_delay_ms,omitempty"` // close: how long the transport's Close takes
+	UseFallback   bool     `json:"use_fallback,omitempty"`   // close: the client is paused by Fallback while it is closed
 	FailDelayMS   []int    `json:"fail_delay_ms,omitempty"` // blackout: per target, how long a call to it takes to fail once it is down
 	Policy        int      `json:"policy"`
 	Targets       int      `json:"targets"`
@@ -73,6 +75,13 @@ func gen(t *rapid.T) Case {
 		c.DialTimeoutMS = 1000
 		genCallers(60)
 		c.CloseAtMS = rapid.IntRange(0, 300).Draw(t, "close_at")
+		c.CloseDelayMS = rapid.SampledFrom([]int{0, 0, 20, 80}).Draw(t, "close_delay")
+		c.UseFallback = rapid.Bool().Draw(t, "use_fallback")
+		// some callers arrive while Close is in progress
+		extra := rapid.IntRange(0, 6).Draw(t, "during_close")
+		for i := 0; i < extra; i++ {
+			c.Callers = append(c.Callers, Caller{Form: rapid.SampledFrom(forms).Draw(t, "form2"), StartMS: c.CloseAtMS + rapid.IntRange(0, c.CloseDelayMS+2).Draw(t, "start_during")})
+		}
 	case "failover":
 		c.Targets = rapid.IntRange(2, 4).Draw(t, "targets")
 		c.DialTimeoutMS = 1000
@@ -307,7 +316,14 @@ func runClose(c Case) kit.Outcome {
 	for _, h := range hosts {
 		frt.SetDown(h, true)
 	}
+	if c.CloseDelayMS < 0 || c.CloseDelayMS > 400 {
+		return kit.Outcome{Invalid: true}
+	}
+	frt.CloseDelay = time.Duration(c.CloseDelayMS) * time.Millisecond
 	client := newClient(c, frt, hosts)
+	if c.UseFallback {
+		client.Fallback(time.Minute)
+	}
 	t0 := time.Now().Add(2 * time.Millisecond)
 	res, wg := startCallers(client, c, t0)
 	time.Sleep(time.Until(t0.Add(time.Duration(c.CloseAtMS) * time.Millisecond)))
@@ -324,10 +340,11 @@ func runClose(c Case) kit.Outcome {
 		if r.err == nil {
 			return kit.Fail("success-without-target", "%s caller %d succeeded although no target was ever live", r.caller.Form, r.id)
 		}
-		ref := closeCalled
-		if r.started.After(closeCalled) {
+		ref := closeReturned
+		if r.started.After(closeReturned) {
 			ref = r.started
-		} else {
+		}
+		if r.started.Before(closeCalled) {
 			waiters++
 		}
 		if r.ended.Sub(ref) > 500*time.Millisecond {
